@@ -137,6 +137,7 @@ type fnCtx struct {
 	nquery          int
 	aborted         string
 	closures        map[string]*closureInfo
+	siteLoop        map[string]int                // call site of a loop-bearing helper -> loop clause number (renumberLoops)
 	orphanLoops     map[int]*LoopSpec             // loop clauses of the contract that name no loop of the function body
 	adoptedBy       map[*ssa.BasicBlock]*LoopSpec // ... and the loop of an in-place callee each of them was attached to
 	usedOrphanHints map[string]bool               // orphan hints that found their call in a helper executed in place
